@@ -959,7 +959,8 @@ def missing_headers(path: str) -> Tuple[List[str], List[str], List[str]]:
         missing_formats.append(fmt)
 
     # Determine which INFOs are missing from the header
-    missing_infos = list(set(seen_infos) - set(header.info))
+    # sorted: the order of the added header lines must not depend on the hash seed
+    missing_infos = sorted(set(seen_infos) - set(header.info))
 
     return (missing_contigs, incorrect_formats + missing_formats, missing_infos)
 
